@@ -630,8 +630,18 @@ namespace sim
 			char const* buf = m_udp_buffer.data();
 			if (buf[2] != 0) std::printf("fragment != 0, not supported\n");
 
-			int const atyp = buf[3];
-			if (atyp == 3)
+			// a datagram shorter than its own header is dropped (the lengths
+			// below would wrap around)
+			int const atyp = bytes_transferred >= 4 ? buf[3] : 0;
+			bool const too_short = bytes_transferred < 4
+				|| (atyp == 1 && bytes_transferred < 10)
+				|| (atyp == 3 && (bytes_transferred < 5
+					|| bytes_transferred < std::size_t(7 + std::uint8_t(buf[4]))));
+			if (too_short)
+			{
+				std::printf("short UDP ASSOCIATE datagram\n");
+			}
+			else if (atyp == 3)
 			{
 				// hostname
 				int const len = buf[4];
